@@ -77,6 +77,7 @@ class SparseStub:
 def work(item):
     rdeg, ncells, rpath, qdeg, ntheta, nprocs, lN, uN, a_const, c_zero, canary = item[:11]
     func_rhs = len(item) > 11 and item[11]          # right-hand side given as a function of r (solveEquationForFunction)
+    d_zero = len(item) > 12 and item[12]            # D identically zero (no theta term: every doubly-Neumann mode is singular when C = 0)
     res = H.worker_result()
     m = dist.mods()
     ps = H.repo_import('pygyro.poisson.poisson_solver')
@@ -100,7 +101,7 @@ def work(item):
     st = {}
     B = lambda r: symx.uf('B', K(r))
     C = (lambda r: 0) if c_zero else (lambda r: symx.uf('C', K(r)))
-    D = lambda r: symx.uf('D', K(r))
+    D = (lambda r: 0) if d_zero else (lambda r: symx.uf('D', K(r)))
     E = lambda r: symx.uf('E', K(r))
     A = lambda r: K(a_const)
 
@@ -189,7 +190,7 @@ def work(item):
                 if (isinstance(va, int) and va == 0 and isinstance(da, int) and da == 0) or (isinstance(vb, int) and vb == 0 and isinstance(db, int) and db == 0):
                     continue
                 t = -K(a_const) * (K(db * da * x) + K(db * va)) + B(x) * K(db * va * x) + (C(x) * K(vb * va * x) if not c_zero else 0) \
-                    - K(msq) * D(x) * K(vb * va * x)
+                    - (K(msq) * D(x) * K(vb * va * x) if not d_zero else 0)
                 acc = acc + t * K(w)
             return acc
 
@@ -294,6 +295,7 @@ def float_replay(m, ps, item):
     """real float solver (real scipy.sparse / spsolve) vs. an independent dense float Galerkin solve with concrete smooth coefficients"""
     rdeg, ncells, rpath, qdeg, ntheta, nprocs, lN, uN, a_const, c_zero = item[:10]
     func_rhs = len(item) > 11 and item[11]
+    d_zero = len(item) > 12 and item[12]
     numenv.disable()
     try:
         breaks = radial_breaks(rpath, ncells)
@@ -305,7 +307,7 @@ def float_replay(m, ps, item):
         eta = [rpts, np.arange(ntheta) / ntheta, np.arange(nz, dtype=float)]
         Bf = lambda r: 0.3 + 0.1 * r
         Cf = (lambda r: 0.0) if c_zero else (lambda r: 0.7 - 0.05 * r * r)
-        Df = lambda r: -1.0 - 0.2 * r
+        Df = (lambda r: 0.0) if d_zero else (lambda r: -1.0 - 0.2 * r)
         Ef = lambda r: 1.0 + 0.5 * r
         Af = lambda r: float(a_const)
         rng = np.random.RandomState(4)
@@ -421,6 +423,8 @@ def main():
         items.append((2, 4, 'nu', 5, 4, (2, 1), (2, -2), (1,), Fr(-1), False, None))
         items.append((1, 2, 'nu', 3, 4, (2, 1), (1, -1), (1,), Fr(-1), False, None))      # pure Neumann on mode 1 with C != 0 (64 funcIsNull paths)
     items.append((2, 3, 'nu', 4, 4, (1, 1), (0,), (), Fr(-1), False, None, True))          # right-hand side given as a function
+    items.append((2, 2, 'nu', 4, 4, (1, 1), (1,), (1,), Fr(-1), True, None, False, True))   # ill-posed on a mode other than 0 (C = D = 0): must be refused
+    items.append((1, 3, 'nu', 7, 4, (1, 1), (0,), (), Fr(-1), False, None))                 # requested exactness well above 2p+1
     items.append((2, 3, 'nu', 4, 4, (1, 1), (0,), (), Fr(-1), False, CANARIES[0]))
     items.append((2, 3, 'nu', 4, 4, (2, 1), (), (-1, 1), Fr(-1), False, CANARIES[1]))
     caught = {}
